@@ -195,43 +195,47 @@ static void limit_space (long start, long *pidx)
   static const int nerrs[] = { 1, 31, 32, 33, 64, 65, 200 };
   int a, c, k;
   char *text = malloc (1 << 20);
-  for (a = 0; a < 6; a++) {
+  int hs;
+  /* hs: shape of the function around the limit - 0 source + destination, 1 accumulator only (variable slot 0, the first
+   * destination, stays undeclared) */
+  for (hs = 0; hs < 2; hs++) for (a = 0; a < 6; a++) {
     long idx = (*pidx)++;
     size_t o = 0;
     char sig[64];
     if (!(idx < start || (idx % cfg.nshards) != cfg.shard)) {
-      o += sprintf (text + o, ".function many\n.source 2 s1\n.dest 2 d1\n.temp 2 t1\ncopyw t1, s1\n");
+      o += sprintf (text + o, hs ? ".function many\n.source 2 s1\n.accumulator 2 a1\n.temp 2 t1\ncopyw t1, s1\n" : ".function many\n.source 2 s1\n.dest 2 d1\n.temp 2 t1\ncopyw t1, s1\n");
       for (k = 0; k < insn_counts[a]; k++) o += sprintf (text + o, "addw t1, t1, s1\n");
-      o += sprintf (text + o, "copyw d1, t1\n");
-      snprintf (sig, sizeof (sig), "insns=%d", insn_counts[a] + 2);
+      o += sprintf (text + o, hs ? "accw a1, t1\n" : "copyw d1, t1\n");
+      snprintf (sig, sizeof (sig), "insns=%d%s", insn_counts[a] + 2, hs ? "/acc-only" : "");
       { char k_[260]; snprintf (k_, sizeof k_, "C14|crash|%s", sig); v_case (idx, k_, sig); }
       one_case (text, sig, 0, 1);
     }
   }
-  for (c = 0; c < 6; c++) for (k = class_limits[c] - 1; k <= class_limits[c] + 2; k++) {
+  for (hs = 0; hs < 2; hs++) for (c = 0; c < 6; c++) for (k = class_limits[c] - 1; k <= class_limits[c] + 2; k++) {
     long idx = (*pidx)++;
     size_t o = 0;
     char sig[64];
     int j;
+    if (hs && c == 1) continue;	/* the destination class itself */
     if (idx < start || (idx % cfg.nshards) != cfg.shard) continue;
-    o += sprintf (text + o, ".function vars\n.source 1 sx\n.dest 1 dx\n");
+    o += sprintf (text + o, hs ? ".function vars\n.source 2 sx\n.accumulator 2 ax\n" : ".function vars\n.source 1 sx\n.dest 1 dx\n");
     for (j = 0; j < k; j++) { o += sprintf (text + o, classes[c], j + 1, j + 1); o += sprintf (text + o, "\n"); }
-    o += sprintf (text + o, "copyb dx, sx\n");
-    snprintf (sig, sizeof (sig), "vars=%s*%d", classes[c], k);
+    o += sprintf (text + o, hs ? "accw ax, sx\n" : "copyb dx, sx\n");
+    snprintf (sig, sizeof (sig), "vars=%s*%d%s", classes[c], k, hs ? "/acc-only" : "");
     { char k_[260]; snprintf (k_, sizeof k_, "C14|crash|%s", sig); v_case (idx, k_, sig); }
     one_case (text, sig, 0, 1);
   }
   /* distinct literal constants in instructions */
-  for (k = 7; k <= 12; k++) {
+  for (hs = 0; hs < 2; hs++) for (k = 7; k <= 12; k++) {
     long idx = (*pidx)++;
     size_t o = 0;
     char sig[64];
     int j;
     if (idx < start || (idx % cfg.nshards) != cfg.shard) continue;
-    o += sprintf (text + o, ".function lits\n.source 2 s1\n.dest 2 d1\n.temp 2 t1\ncopyw t1, s1\n");
+    o += sprintf (text + o, hs ? ".function lits\n.source 2 s1\n.accumulator 2 a1\n.temp 2 t1\ncopyw t1, s1\n" : ".function lits\n.source 2 s1\n.dest 2 d1\n.temp 2 t1\ncopyw t1, s1\n");
     for (j = 0; j < k; j++) o += sprintf (text + o, "addw t1, t1, %d\n", j + 1);
-    o += sprintf (text + o, "copyw d1, t1\n");
-    snprintf (sig, sizeof (sig), "literals=%d", k);
+    o += sprintf (text + o, hs ? "accw a1, t1\n" : "copyw d1, t1\n");
+    snprintf (sig, sizeof (sig), "literals=%d%s", k, hs ? "/acc-only" : "");
     { char k_[260]; snprintf (k_, sizeof k_, "C14|crash|%s", sig); v_case (idx, k_, sig); }
     one_case (text, sig, 0, 1);
   }
